@@ -60,7 +60,7 @@ Section Preserve.
       induction ms as [|m ms IH]; intros rs h acc H; cbn [group_loop]; [exact H|].
       pose proof (recd_P rs h m H) as H1.
       destruct (recd rs h m) as [rs1 [a|e|]]; cbn [fst] in *; try exact H1.
-      destruct a; try exact H1. apply IH. exact H1.
+      destruct a; try exact H1; apply IH; exact H1.
     Qed.
 
     Lemma dep_value_P rs h d : Prs rs -> Prs (fst (dep_value recd rs h d)).
